@@ -4,6 +4,7 @@ CONSTANTS
   Orders = {"signal_first"}
   Standbys = {TRUE, FALSE}
   TimerMays = {TRUE, FALSE}
+  LazyCaller = FALSE
   EagerCaller = FALSE
   EnvCancel = TRUE
   EnvDeadline = TRUE
